@@ -77,6 +77,26 @@ theorem inv {mi : Nat} (I : Fw σ → Prop) (hstep : ∀ s t, I s → Step mi s 
 
 end Reach
 
+section
+variable {σ : Type}
+theorem set_getElem?_some {α : Type} (l : List α) (mi i : Nat) (x y : α) (h : (l.set mi x)[i]? = some y) :
+    (i = mi ∧ y = x) ∨ (i ≠ mi ∧ l[i]? = some y) := by
+  by_cases hi : i = mi
+  · subst hi
+    left
+    rw [List.getElem?_set] at h
+    split at h
+    · split at h
+      · exact ⟨rfl, (Option.some.inj h).symm⟩
+      · simp at h
+    · exact absurd rfl ‹_›
+  · right
+    refine ⟨hi, ?_⟩
+    rw [List.getElem?_set] at h
+    simpa [Ne.symm hi] using h
+
+end
+
 /-! ### field lemmas for the primitive updates -/
 
 namespace Fw
